@@ -299,3 +299,4 @@ def run(chk, repo):
 
 # added rules (appended to the explanation the evidence file carries)
 EXPLANATION += (" " + 'Added during the build (DESIGN.md 4.31, second table): reset() restarts the timer from the clock even when other objects hold stale time stamps; (R27.6) every path through SyncGroup.update_devices runs the devices (shared with C30).')
+EXPLANATION += (' Added after wave 9: (R27.2) lastGood is stored by update() and reset() only.')
